@@ -303,6 +303,7 @@ class Model:
 
     def _locate(self):
         loc, problems = {}, []
+        self.probe_ok = {}
         for k in self.valid:
             cur = self.init.get(k)
             done = False
@@ -315,6 +316,7 @@ class Model:
                 d = snapshot.diff(self.init_snap, snapshot.snapshot(scratch), ignore=("_numbytes",))
                 if d:
                     loc[k] = _common_prefix([p for p, _, _ in d])
+                    self.probe_ok[k] = pv
                     done = True
                     break
             if not done:
@@ -352,10 +354,25 @@ class Model:
 
     def prefix_ops(self, tier):
         """state-changing assignments used as non-final operations of longer sequences"""
-        names = ["int", "liststr"] if tier == "thorough" else ["int"]
-        ops = [["set", k, n] for k in self.valid for n in names]
+        ops = []
+        for k in self.valid:
+            first = "int" if self._changes(k, "int") else "probe"    # an assignment this key's setter accepts
+            names = [first] + (["liststr"] + (["probe"] if first != "probe" else []) if tier == "thorough" else [])
+            ops += [["set", k, n] for n in names if n != "probe" or k in self.probe_ok]
         ops += [["set", k, "bool"] for k in self.valid if k.endswith(".enabled")]
         return ops
+
+    def _changes(self, k, name):
+        scratch = copy.deepcopy(self.init)
+        try:
+            scratch.set(k, self.value(k, name))
+        except Exception:  # noqa: BLE001
+            return False
+        return bool(snapshot.diff(self.init_snap, snapshot.snapshot(scratch), ignore=("_numbytes",)))
+
+    def value(self, k, name):
+        """value of the palette; 'probe' = the key-specific value found acceptable while locating the setting"""
+        return copy.deepcopy(self.probe_ok[k]) if name == "probe" else value_of(name)
 
     # ---- reference model
     def initial_ref(self, proc):
@@ -419,7 +436,7 @@ class Walker:
                 elif name == "get":
                     res = scratch.get(k)
                 else:
-                    v = value_of(op[2])
+                    v = m.value(k, op[2])
                     scratch.set(k, v)
             except Exception as e:  # noqa: BLE001
                 exc = e
